@@ -46,6 +46,15 @@ theorem crit_is_between_class_variance (hist : List Nat) (cs : List Rat)
   refine ⟨fun i hi => critListN_getElem? hist cs hc i hi, fun h0 hl => ?_⟩
   rw [critListN_eq_some hist cs hc h0 hl, critList_eq_spec hist cs hc]
 
+/-- why `none` is NaN and never ±inf: a class without weight has no moment either, so wherever the mechanism divides by
+zero the dividend is zero as well (`0/0`) -/
+theorem zero_over_zero (hist : List Nat) (cs : List Rat) (i : Nat) :
+    ((cutSums hist cs i).1 = 0 → (cutSums hist cs i).2.2.1 = 0) ∧
+    ((cutSums hist cs i).2.1 = 0 → (cutSums hist cs i).2.2.2 = 0) :=
+  ⟨prefix_moment_zero hist cs i, suffix_moment_zero hist cs i⟩
+
+example : cutSums [0, 0, 3, 2] [1/2, 3/2, 5/2, 7/2] 1 = (0, 5, 0, 29/2) := by decide +kernel
+
 /-- the returned value is the centre of a bin `i ≤ n − 2` whose cut maximises the between-class
 criterion over all cut points, and it is the first such bin -/
 theorem otsu_maximises (hist : List Nat) (edges : List Rat) (hn : 2 ≤ hist.length)
